@@ -86,7 +86,7 @@ class BaseSubProjectTask(BaseTask):
             else datetime.timedelta(minutes=1)
         )
         self.read_json_file = read_json_file
-        self.remove_absence_time_list = remove_absence_time_list
+        self.remove_absence_time_list_flag = remove_absence_time_list
         super().__init__(
             name=name,
             ID=ID,
@@ -168,7 +168,7 @@ class BaseSubProjectTask(BaseTask):
         if remove_absence_time_list:
             project.remove_absence_time_list()
 
-        self.remove_absence_time_list = remove_absence_time_list
+        self.remove_absence_time_list_flag = remove_absence_time_list
         self.read_json_file = True
         self.default_work_amount = project.time
         self.unit_timedelta = project.unit_timedelta
@@ -188,6 +188,6 @@ class BaseSubProjectTask(BaseTask):
         data = super().export_dict_json_data()
         data["file_path"] = self.file_path
         data["unit_timedelta"] = str(self.unit_timedelta.total_seconds())
-        data["remove_absence_time_list"] = self.remove_absence_time_list
+        data["remove_absence_time_list"] = self.remove_absence_time_list_flag
         data["read_json_file"] = self.read_json_file
         return data
